@@ -427,7 +427,9 @@ func checkClone(c Case) (res vprop.Result) {
 		} else {
 			res.Label("target:Action-in-sequence")
 		}
-		res.Label("target-action-req:" + reqKindNames[reqKindOf(orig.(*workflow.Action))])
+		if k := reqKindOf(orig.(*workflow.Action)); k >= 0 {
+			res.Label("target-action-req:" + kinds[k].label)
+		}
 	case *workflow.Checks:
 		res.Label("target:Checks-" + groupNames[c.Target.Group])
 	}
@@ -529,10 +531,10 @@ func countRequests(acts []*workflow.Action) {
 		case *Req:
 			ptr++
 			r = v
-		case NReq:
+		case N1Req, N2Req, N3Req:
 			nestVal++
 			continue
-		case *NReq:
+		case *N1Req, *N2Req, *N3Req:
 			nestPtr++
 			continue
 		default:
@@ -561,28 +563,11 @@ func countRequests(acts []*workflow.Action) {
 	vprop.Count("requests_with_any_field_set", anyField)
 }
 
-func reqKindOf(a *workflow.Action) int {
-	switch a.Req.(type) {
-	case Req:
-		return reqValue
-	case *Req:
-		return reqPointer
-	case NReq:
-		return reqNestValue
-	case *NReq:
-		return reqNestPointer
-	}
-	return reqNil
-}
+func reqKindOf(a *workflow.Action) int { return kindOfValue(a.Req) }
 
-// nestedRefs reports whether an NReq actually holds shareable memory below its top level (a non-nil map, a pointer, a
+// holdsRefs reports whether a request/response value actually refers to shareable memory (a non-nil map, a pointer, a
 // slice with capacity) — only then can a shallow copy be told from a deep one.
-func nestedRefs(r *NReq) bool {
-	sub := func(s *Sub) bool { return cap(s.Blob) > 0 || s.Tags != nil }
-	l := &r.Mid.Leaf
-	return sub(&r.Inner) || sub(&r.Pair[0]) || sub(&r.Pair[1]) ||
-		cap(l.Items) > 0 || l.Notes != nil || l.Ptr != nil || cap(l.Subs) > 0
-}
+func holdsRefs(v any) bool { return v != nil && len(spansOf(v, "")) > 0 }
 
 // actionsUnder lists the actions of a clonable object (plan, block, sequence, checks group or action).
 func actionsUnder(obj any) []*workflow.Action {
@@ -601,46 +586,29 @@ func actionsUnder(obj any) []*workflow.Action {
 	return nil
 }
 
-// labelNested classifies what the cloned subtree holds of the "references only in nested structs" request type.
+// labelNested classifies what the cloned subtree holds of the "references only below a struct / array field" request
+// types: label cloned:<class>-<value|pointer>-req when a request of that type with live references is cloned, and
+// cloned:<class>-<value|pointer>-resp-kept when (keep-state) an attempt response of that type is.
 func labelNested(res *vprop.Result, orig any, keepState bool) {
-	var valReq, ptrReq, valResp, ptrResp bool
+	seen := map[string]bool{}
+	add := func(v any, suffix string) {
+		k := kindOfValue(v)
+		if k < 0 || kinds[k].class == "" || !holdsRefs(v) {
+			return
+		}
+		l := "cloned:" + kinds[k].label + suffix
+		if !seen[l] {
+			seen[l] = true
+			res.Label(l)
+		}
+	}
 	for _, a := range actionsUnder(orig) {
-		switch r := a.Req.(type) {
-		case NReq:
-			if nestedRefs(&r) {
-				valReq = true
-			}
-		case *NReq:
-			if nestedRefs(r) {
-				ptrReq = true
+		add(a.Req, "-req")
+		if keepState {
+			for _, att := range a.Attempts {
+				add(att.Resp, "-resp-kept")
 			}
 		}
-		for _, att := range a.Attempts {
-			switch r := att.Resp.(type) {
-			case NResp:
-				n := NReq(r)
-				if nestedRefs(&n) {
-					valResp = true
-				}
-			case *NResp:
-				n := NReq(*r)
-				if nestedRefs(&n) {
-					ptrResp = true
-				}
-			}
-		}
-	}
-	if valReq {
-		res.Label("cloned:nested-value-req")
-	}
-	if ptrReq {
-		res.Label("cloned:nested-pointer-req")
-	}
-	if keepState && valResp {
-		res.Label("cloned:nested-value-resp-kept")
-	}
-	if keepState && ptrResp {
-		res.Label("cloned:nested-pointer-resp-kept")
 	}
 }
 
